@@ -24,3 +24,7 @@ Check (C36_example_nontrivial :
             map fst (d_log d) = [2] /\
             pipeline_groups (sv_state (r_sm (ropen d))) = [(5%N, JNum 1)]).
 Print Assumptions C36_example_nontrivial.
+Check (C36_log_only_recovery_refuted :
+  exists d, In d (crash_disks ex_ops rstore0) /\
+            recover_state_log_only d <> sv_state (sm_apply (gprefix ex_G (acnt (d_applied d))) smv0)).
+Print Assumptions C36_log_only_recovery_refuted.
